@@ -110,12 +110,21 @@ def specConfs (st : Index) : List Path := (allFiles st).filter isConftestName
 def specAcceptable (st : Index) (ix : List Def) (f : Path) (n : String) : List Def :=
   Spec.acceptable ix (specEdges st) (specConfs st) f n
 
+/-- the fixture whose parameter list a recorded usage belongs to (if any): a definition of the
+    same name in the same file whose `def` statement spans the usage and which requests the name. -/
+def ownerOf (st : Index) (u : Usage) : Option Def :=
+  st.defs.find? (fun d => d.file == u.file && d.name == u.name && d.line ≤ u.line &&
+    u.line ≤ d.endLine && d.deps.contains u.name)
+
+/-- the index a usage must be resolved over according to the property: without its owner. -/
+def usageIx (st : Index) (u : Usage) : List Def :=
+  match ownerOf st u with
+  | some c => st.defs.filter (· != c)
+  | none => st.defs
+
 /-- acceptable targets for one recorded usage (C01 + the C02 outward rule). -/
 def specForUsage (st : Index) (u : Usage) : List Def :=
-  let ix := match defAtLine st.defs u.file u.line with
-    | some c => if c.name == u.name then st.defs.filter (· != c) else st.defs
-    | none => st.defs
-  specAcceptable st ix u.file u.name
+  specAcceptable st (usageIx st u) u.file u.name
 
 /-- which hypotheses of the partial theorems fail for resolving `n` from `f` over `ix`
     (names match `known_findings.json`):
@@ -135,14 +144,12 @@ def specFlags (st : Index) (ix : List Def) (f : Path) (n : String) : List String
     | some { parsed := some fr, .. } =>
       fr.imports.any (fun imp => !imp.isStar && imp.orig.contains n && imp.names != imp.orig)
     | _ => false)
-  (if impFirst then ["imp-first"] else []) ++ (if alias then ["alias"] else [])
+  let multiThird := ((defsOf ix n).filter (·.thirdParty)).length ≥ 2
+  let multiPlugin := ((defsOf ix n).filter (fun d => d.plugin && !d.thirdParty)).length ≥ 2
+  (if impFirst then ["imp-first"] else []) ++ (if alias then ["alias"] else []) ++
+    (if multiThird then ["multi-third"] else []) ++ (if multiPlugin then ["multi-plugin"] else [])
 
 def flagStr (fl : List String) : String := if fl.isEmpty then "" else " FLAGS=" ++ ",".intercalate fl
-
-def usageIx (st : Index) (u : Usage) : List Def :=
-  match defAtLine st.defs u.file u.line with
-  | some c => if c.name == u.name then st.defs.filter (· != c) else st.defs
-  | none => st.defs
 
 def specGoto (st : Index) (f : Path) (line0 col : Nat) : String :=
   match st.lineText f line0 with
@@ -153,7 +160,17 @@ def specGoto (st : Index) (f : Path) (line0 col : Nat) : String :=
     | some w =>
       match usageAt (st.usagesOf f) (line0 + 1) (String.ofList w) col with
       | none => "none"
-      | some u => sorted ((specForUsage st u).map defShort) ++ flagStr (specFlags st (usageIx st u) f u.name)
+      | some u =>
+        let ml := match ownerOf st u with
+          | some d => if d.line != u.line then ["multiline-self"] else []
+          | none => []
+        sorted ((specForUsage st u).map defShort) ++ flagStr (specFlags st (usageIx st u) f u.name ++ ml)
+
+def cycleFlags (st : Index) : List String :=
+  let names := namesOf st.defs
+  let multi := names.any (fun n => (defsOf st.defs n).length ≥ 2)
+  let alts := ((st.cyclesAlternatives).1.map (fun cy => sorted (cy.map (fun c => ">".intercalate c.path)))).eraseDups
+  (if multi then ["multi-def-name"] else []) ++ (if alts.length > 1 then ["root-order"] else [])
 
 def cycleStr (c : Cycle) : String := s!"{">".intercalate c.path}@{defShort c.fixture}"
 
@@ -238,8 +255,33 @@ def runSpec (c : CaseSt) (t : List String) : Option String :=
     let names := sortStrs (namesOf st.defs)
     some (";".intercalate (names.filterMap (fun n =>
       let acc := specAcceptable st st.defs f n
-      let fl := specFlags st st.defs f n
+      let dupSame := ((defsOf st.defs n).filter (·.file == f)).length ≥ 2
+      let uncached := (ancestorsOfDir (dirOf f)).any (fun dir =>
+        let c := conftestOf dir
+        st.existsOnDisk c && !ahas st.cache c)
+      let impAny := (ancestorsOfDir (dirOf f)).any (fun dir =>
+        let c := conftestOf dir
+        (st.existsOnDisk c || ahas st.cache c) && (st.isImportedIn n c).1)
+      -- a definition no cascade class of `resolve_fixture_for_file` accepts makes its fallback reachable
+      let stray := (defsOf st.defs n).any (fun d => d.file != f && !d.thirdParty && !d.plugin &&
+        !(isConftestName d.file && pathStartsWith f (dirOf d.file)))
+      let fl := specFlags st st.defs f n ++ (if dupSame then ["dup-samefile"] else []) ++
+        (if uncached then ["uncached-conftest"] else []) ++ (if impAny then ["imported-name"] else []) ++
+        (if stray then ["stray-def"] else [])
       if acc.isEmpty && fl.isEmpty then none else some s!"{n}={sorted (acc.map defShort)}{flagStr fl}")))
+  | ["refs", _, _, n] =>
+    let us := st.allUsages.filter (·.name == n)
+    let rf := (us.flatMap (fun u => specFlags st (usageIx st u) u.file u.name)).eraseDups
+    some ("-" ++ flagStr ((if us.eraseDups.length != us.length then ["dup-usage-recorded"] else []) ++ rf))
+  | ["unused"] =>
+    some ("-" ++ flagStr ((st.allUsages.flatMap (fun u => specFlags st (usageIx st u) u.file u.name)).eraseDups))
+  | ["cycles"] => some ("-" ++ flagStr (cycleFlags st))
+  | ["cyclesin", _] => some ("-" ++ flagStr (cycleFlags st))
+  | ["mismatch", p] =>
+    let f := pathOf p
+    let deps := (st.defs.filter (·.file == f)).flatMap (·.deps)
+    let multi := deps.any (fun n => (defsOf st.defs n).length ≥ 2)
+    some ("-" ++ flagStr (if multi then ["dep-multi-def"] else []))
   | _ => none
 
 def runOp (c : CaseSt) (t : List String) : String × CaseSt :=
